@@ -13,7 +13,7 @@
    real code. *)
 From Coq Require Import ZArith List Bool Arith.
 From RP Require Import Gen.StatesTables Wait.Model Wait.Inst Wait.Oracle Wait.Proofs Wait.InstProofs.
-From RP Require States.Model States.Proofs States.Inst.
+From RP Require States.Model States.Proofs States.Inst States.PilotEnd.
 Import ListNotations.
 
 Notation tmem := (mem tstate_beq).
@@ -283,3 +283,22 @@ Proof. exact (history_chain _ _ _ _ _ _ _ t_wf). Qed.
 Print Assumptions C15_client_state_is_end_of_announced_chain.
 
 End ClientSide.
+
+(* ---- the pilot's end reaches the task manager ----
+   The task manager's callback (above) runs when the PILOT OBJECT changes
+   state: the chain is pmgr notification -> PilotManager._update_pilot ->
+   Pilot._update -> pilot callbacks -> TaskManager._pilot_state_cb.  Model of
+   the first three links: RP.States (subject of C14).  What C15 needs from it:
+   a final notification for a pilot that is not final yet makes Pilot.state that
+   final state, raises nothing and ends the callback sequence with it --
+   whatever state the client still had the pilot in (a very short pilot, a
+   missed activation notice). *)
+Module PilotSide.
+Import RP.States.Model RP.States.Inst RP.States.PilotEnd.
+Theorem C15_pilot_end_is_observed :
+  forall cur tgt : pstate,
+    p_is_final cur = false -> p_is_final tgt = true ->
+    exists cbs, p_notify cur tgt = (tgt, cbs ++ [tgt], None).
+Proof. exact pilot_end_is_observed. Qed.
+Print Assumptions C15_pilot_end_is_observed.
+End PilotSide.
